@@ -4,3 +4,5 @@ set -e
 cd "$(dirname "$0")"
 ./build.sh fast
 ./build.sh asan
+./build.sh sched
+./build.sh tsan
